@@ -27,6 +27,7 @@ META = dict(
          "is C17's business.",
     technique="loop-form accounting, effects (who-may-write), decision table + derivative sign, writer/reader constant agreement",
 )
+META["text"] += ' (R6, N) CVR and Stratum constructors store id, votes, phantom, tally_pool, pool / max_cards, use_style from the parameters of the same name.'
 
 
 def run(chk):
@@ -40,6 +41,9 @@ def run(chk):
     r123(chk)
     r4(chk)
     r5(chk)
+    # R6: the flags and identifiers the rules above read are the ones the constructors were given
+    aud.ctor_fields(chk, "C08.R6", REL, "CVR", ["id", "votes", "phantom", "tally_pool", "pool"], "phantom records are recognised by obj.phantom")
+    aud.ctor_fields(chk, "C08.R6", REL, "Stratum", ["max_cards", "use_style"], "the accounting scheme and the card bound come from the stratum")
 
 
 def cvr_ctor_calls(node):
